@@ -3,9 +3,60 @@
 //! `blexskip` / `blexskipv` (c08.rs); this module assembles their generators.
 use crate::common::*;
 
+/// containers whose payloads LOOK like structure: every payload-carrying token kind with 16-bit limbs
+/// equal to lexeme ids at every limb position, strings containing 03 00 / 04 00 and lexeme-valued
+/// length prefixes, rgb blocks -- the skip must advance by payload width, never by content
+pub fn gen_lookalike(g: &mut Gen) {
+    const LIMBS: [u16; 12] = [0x0001, 0x0003, 0x0004, 0x000c, 0x000d, 0x000e, 0x000f, 0x0014, 0x0017, 0x0243, 0x0317, 0x029c];
+    let mut payloads: Vec<Vec<u8>> = vec![];
+    for &l in &LIMBS {
+        for (id, width) in [(0x000cu16, 2usize), (0x0014, 2), (0x000d, 2), (0x0317, 4), (0x029c, 4), (0x0167, 4)] {
+            for pos in 0..width {
+                let mut v = id.to_le_bytes().to_vec();
+                for i in 0..width { v.extend_from_slice(&(if i == pos { l } else { 0x2222 }).to_le_bytes()); }
+                payloads.push(v.clone());
+                // all limbs structural
+                let mut w = id.to_le_bytes().to_vec();
+                for _ in 0..width { w.extend_from_slice(&l.to_le_bytes()); }
+                payloads.push(w);
+            }
+        }
+        // strings: content looks like tokens, length prefix is itself a lexeme id value
+        for sid in [0x000fu16, 0x0017] {
+            let content: Vec<u8> = std::iter::repeat(l.to_le_bytes()).take(3).flatten().collect();
+            let mut v = sid.to_le_bytes().to_vec(); v.extend_from_slice(&(content.len() as u16).to_le_bytes()); v.extend_from_slice(&content); payloads.push(v);
+            let n = (l as usize).min(40);
+            let mut v = sid.to_le_bytes().to_vec(); v.extend_from_slice(&(n as u16).to_le_bytes()); v.extend(std::iter::repeat(4u8).take(n)); payloads.push(v);
+        }
+    }
+    payloads.push(vec![0x0e, 0, 3]); payloads.push(vec![0x0e, 0, 4]);
+    payloads.push(vec![0x43, 2, 3, 0, 0x14, 0, 3, 0, 0, 0, 0x14, 0, 4, 0, 0, 0, 0x14, 0, 3, 0, 4, 0, 4, 0]);
+    let caps = ["16", "24", "64", "r32", "S"];
+    let scheds = ["-", "R1", "R2", "R3", "R7"];
+    for (i, p) in payloads.iter().enumerate() {
+        // key = { <payload> <payload> } next = 1   and nested one level deeper, as value and as key
+        for shape in 0..3 {
+            let mut d = vec![0x00u8, 0x20, 1, 0, 3, 0];
+            match shape {
+                0 => { d.extend_from_slice(p); d.extend_from_slice(p); }
+                1 => { d.extend_from_slice(&[0x07, 0x20, 1, 0]); d.extend_from_slice(p); d.extend_from_slice(&[0x0e, 0x20, 1, 0, 3, 0]); d.extend_from_slice(p); d.extend_from_slice(&[4, 0]); }
+                _ => { d.extend_from_slice(&[3, 0]); d.extend_from_slice(p); d.extend_from_slice(&[4, 0]); d.extend_from_slice(p); }
+            }
+            d.extend_from_slice(&[4, 0, 0x15, 0x20, 1, 0, 0x0c, 0, 1, 0, 0, 0]);
+            let cap = caps[(i + shape) % caps.len()];
+            let sched = if cap == "S" { "-" } else { scheds[(i * 3 + shape) % scheds.len()] };
+            g.emit(format!("bskip {} {} {} 0", cap, sched, hex(&d)));
+            g.emit(format!("blexskip {} 0", hex(&d)));
+            g.emit(format!("blexskipv {} 0", hex(&d)));
+        }
+    }
+    g.count("bin-skip-lookalike-payloads");
+}
+
 pub fn gen(g: &mut Gen) {
     super::c07::gen_skip(g);
     super::c08::gen_skip(g);
+    gen_lookalike(g);
 }
 
 pub fn exec(_w: &[&str], _obs: &mut Obs) -> Option<String> {
